@@ -1,12 +1,237 @@
+import Blots.Lemmas.PrattRoundTrip
+import Blots.Lemmas.PrintLemmas
 import Blots.Model.Format
-import Blots.Model.Pratt
 /-
-  C07 — placeholder while the theorems are being written (see C10 for the operator table
-  and the Pratt round trip); replaced below in this session.
+  C07 — the formatter preserves program meaning: the parts that are *logic of the printer*.
+
+  The model (`Model/Print.lean`, `Model/Format.lean`) mirrors `ast_to_source.rs` /
+  `formatter.rs`; `Model/Pratt.lean` mirrors pest's Pratt parser as `build_pratt_parser`
+  configures it.  Statements only; lemmas and auxiliary definitions are in
+  `Lemmas/PrattRoundTrip.lean` and `Lemmas/PrintLemmas.lean`.
+
+  PROVED here, for all inputs:
+   1. the operator skeleton of every printed expression re-parses to the same tree
+      (`needsParens` against the Pratt parser, any depth);
+   2. every string literal the printer emits is read back, CHARACTER BY CHARACTER, by the
+      grammar rule `string = ${ PUSH("\"" | "'") ~ string_value ~ POP }` (model `readString`)
+      to the original characters — all three branches of `string_to_source`; a literal can
+      never contain its own delimiter (why the old escaping printer, finding F2, was wrong);
+      record keys;
+   3. a statement never starts with `-` (it would continue the previous line);
+   4. open-ended forms (lambda / if / assignment / output at the right edge) are parenthesised
+      wherever something follows them; `endsOpen` characterised inductively;
+   5. `lambdaBodyNeedsParens` characterised inductively (`via`/`into`/`where` reachable along
+      the left spine of loosest-level operators), with the level facts from the generated table;
+   6. `numberToSource` by cases; no minus sign for a number without sign bit.
+
+  NOT proved (and not provable in this model): that the *whole* printed text, lexed character
+  by character by the PEG grammar, yields the item sequence `items e` (identifiers, numbers,
+  keywords, white space, brackets), and anything about the width-driven layout functions
+  (`fmtImpl`, `fmtMulti`, … are `partial`).  Those are tied to the real code by the
+  correspondence harness (model output = Rust output on generated programs) and by the
+  model-free reparse oracle of `harness/src/props/c07.rs` (format, parse again, compare trees).
 -/
 namespace Blots.C07
+open Blots.PrattRT Blots.PrintL
+
+/-! ### 1. operator skeleton -/
 
 /-- `expr_to_source` is `expr_to_source_with_scope` with nothing to inline -/
 theorem exprToSource_is_empty_scope (e : Expr) : exprToSource e = exprSrc [] e := rfl
+
+/-- The pair sequence of the minimally parenthesised print of a tree (a parenthesised child
+    is one primary) is parsed back to that tree by the Pratt parser — unbounded depth. -/
+theorem printed_operators_reparse (e : Expr) (h : NoInvert e) : prattParse (items e) = some e :=
+  (items_PExpr e h).parse
+
+/-! ### 2. string literals, character level -/
+
+/-- branch 1 of `string_to_source`: a string without `"` is printed `"s"` and the grammar's
+    `string` rule reads exactly `s` back, leaving whatever follows -/
+theorem string_without_dquote_reads_back (s rest : List Char) (h : '"' ∉ s) :
+    stringToSource (String.ofList s) = "\"" ++ String.ofList s ++ "\"" ∧
+    readString ((stringToSource (String.ofList s)).toList ++ rest) = some (s, rest) :=
+  ⟨stringToSource_dq _ (by simpa using h), readString_dq s rest h⟩
+
+/-- branch 2: a string with `"` but without `'` is printed `'s'` and reads back -/
+theorem string_with_dquote_reads_back (s rest : List Char) (h1 : '"' ∈ s) (h2 : '\'' ∉ s) :
+    stringToSource (String.ofList s) = "'" ++ String.ofList s ++ "'" ∧
+    readString ((stringToSource (String.ofList s)).toList ++ rest) = some (s, rest) :=
+  ⟨stringToSource_sq _ (by simpa using h1) (by simpa using h2), readString_sq s rest h1 h2⟩
+
+/-- branch 3: both quote kinds occur.  The text is `( lit + lit + … )` with at least one
+    literal; every literal is `q content q` with `q` a quote character not occurring in
+    `content`, so `readString` reads it back to `content`; and the contents, concatenated in
+    order, are the original string. -/
+theorem string_with_both_quotes_is_concatenation (s : String)
+    (h1 : '"' ∈ s.toList) (h2 : '\'' ∈ s.toList) :
+    stringToSource s = "(" ++ " + ".intercalate ((quotedPieces s.toList).map litOf) ++ ")" ∧
+    quotedPieces s.toList ≠ [] ∧
+    (∀ qc ∈ quotedPieces s.toList,
+      (qc.1 = '"' ∨ qc.1 = '\'') ∧ qc.1 ∉ qc.2 ∧
+      (litOf qc).toList = qc.1 :: (qc.2 ++ [qc.1]) ∧
+      ∀ rest, readString ((litOf qc).toList ++ rest) = some (qc.2, rest)) ∧
+    (pieces s.toList).flatten = s.toList ∧
+    pieces s.toList = (quotedPieces s.toList).map (·.2) := by
+  refine ⟨stringToSource_both s h1 h2, quotedPieces_ne_nil _ h1, ?_, pieces_flatten _, rfl⟩
+  intro qc hqc
+  obtain ⟨hq, hf⟩ := quotedPieces_ok _ qc hqc
+  exact ⟨hq, hf, by simp [litOf], litOf_reads qc hq hf⟩
+
+/-- What the `string` rule can read at all: `q content q` with `q ∉ content`.  No literal
+    denotes a string containing its own delimiter — the grammar has no escapes, which is why
+    a printer that escapes quotes (the old one, finding F2) cannot be read back. -/
+theorem string_rule_reads_only_delimiter_free (inp c rest : List Char)
+    (h : readString inp = some (c, rest)) :
+    ∃ q, (q = '"' ∨ q = '\'') ∧ inp = q :: (c ++ q :: rest) ∧ q ∉ c :=
+  readString_content_free inp c rest h
+
+/-- `format_record_key`: a valid identifier is printed bare; any other key as a string literal
+    that reads back to the key; when both quote kinds occur, as a computed key `[ … ]` around
+    the concatenation of the previous theorem. -/
+theorem record_key_printed (k : String) :
+    (isValidIdentifier k = true → formatRecordKey k = k) ∧
+    (isValidIdentifier k = false → ¬ ('"' ∈ k.toList ∧ '\'' ∈ k.toList) →
+      formatRecordKey k = stringToSource k ∧
+      ∀ rest, readString ((formatRecordKey k).toList ++ rest) = some (k.toList, rest)) ∧
+    (isValidIdentifier k = false → '"' ∈ k.toList → '\'' ∈ k.toList →
+      formatRecordKey k = "[" ++ stringToSource k ++ "]") :=
+  ⟨formatRecordKey_ident k,
+   fun h hq => ⟨formatRecordKey_string k h hq, formatRecordKey_reads k h hq⟩,
+   formatRecordKey_computed k⟩
+
+/-- a bare key is not a reserved word and is made of identifier characters; the printer's
+    list of reserved words is the grammar's (both generated from the sources) -/
+theorem bare_key_is_identifier (k : String) (h : isValidIdentifier k = true) :
+    k ∉ Gen.grammarReserved ∧
+    ∃ c rest, k.toList = c :: rest ∧ (isAsciiAlpha c = true ∨ c = '_') ∧
+      ∀ d ∈ rest, isAsciiAlpha d = true ∨ isAsciiDigit d = true ∨ d = '_' := by
+  have := isValidIdentifier_spec k h
+  rwa [reserved_lists_agree] at this
+
+/-! ### 3. statement start -/
+
+/-- `protect_statement_start`: the result never starts with `-`; strings that do not start
+    with `-` are unchanged, the others are wrapped in parentheses -/
+theorem statement_start_protected (s : String) :
+    (protectStatementStart s).toList.head? ≠ some '-' ∧
+    (s.toList.head? ≠ some '-' → protectStatementStart s = s) ∧
+    (s.toList.head? = some '-' → protectStatementStart s = "(" ++ s ++ ")") :=
+  ⟨protectStatementStart_head s, protectStatementStart_id s, protectStatementStart_minus s⟩
+
+/-- so no formatted top-level statement, whatever the layout, starts with `-` -/
+theorem formatted_statement_never_starts_with_minus (e : Expr) (w : Option Nat) :
+    (formatExpr e w).toList.head? ≠ some '-' :=
+  protectStatementStart_head _
+
+/-! ### 4. open-ended forms -/
+
+/-- `ends_open` holds exactly when the rightmost leaf along binary-right / unary-operand
+    edges is a lambda, conditional, assignment or output -/
+theorem endsOpen_characterised (e : Expr) : endsOpen e = true ↔ EndsOpen e := endsOpen_iff e
+
+/-- such a child is never left exposed where something follows it: as a left operand of any
+    binary operator and as the operand of any postfix operator it is parenthesised -/
+theorem open_ended_forms_are_parenthesised (c : Expr) (op : BinOp) (h : endsOpen c = true) :
+    needsParens c (.binLeft op) = true ∧ needsParens c .postfix_ = true :=
+  endsOpen_needsParens c op h
+
+/-! ### 5. lambda bodies -/
+
+/-- `lambda_body_needs_parens` holds exactly when the left spine of loosest-level binary
+    operators of the body reaches a `via` / `into` / `where` -/
+theorem lambda_body_parens_characterised (e : Expr) :
+    lambdaBodyNeedsParens e = true ↔ ChainExposed e := lambdaBodyNeedsParens_iff e
+
+/-- the level used there, from the generated precedence table: the operators on the level of
+    `via` are exactly `&&`, `and`, `||`, `or`, `via`, `into`, `where`, and no operator is looser -/
+theorem chain_level_operators (op : BinOp) :
+    ((opInfo op).1 = (opInfo .via).1 ↔
+      op ∈ [BinOp.and, .nand, .or, .nor, .via, .into, .where_]) ∧
+    (opInfo .via).1 ≤ (opInfo op).1 := chain_level op
+
+/-! ### 6. numbers -/
+
+/-- `number_to_source` by cases: +∞ ↦ `1e999` (an out-of-range literal; there is no literal
+    for infinity); integral with |x| < 1e15 ↦ `{:.0}`; otherwise `to_string()` -/
+theorem number_to_source_cases (x : F64) :
+    (x.isInf = true → x.neg = false → numberToSource x = "1e999") ∧
+    (¬ (x.isInf = true ∧ x.neg = false) → x.isIntegral = true →
+      F64.flt x.abs f64_1e15 = true → numberToSource x = x.toFixed 0) ∧
+    (¬ (x.isInf = true ∧ x.neg = false) →
+      ¬ (x.isIntegral = true ∧ F64.flt x.abs f64_1e15 = true) → numberToSource x = x.toDisplay) :=
+  ⟨numberToSource_inf x, numberToSource_int x, numberToSource_other x⟩
+
+/-- a number without the sign bit is printed without any `-` (in particular it does not
+    start with one) -/
+theorem number_without_sign_prints_no_minus (x : F64) (h : x.neg = false) :
+    '-' ∉ (numberToSource x).toList := numberToSource_no_minus x h
+
+/-! #### examples: the hypotheses are satisfiable by non-trivial values -/
+
+section examples
+private abbrev a : Expr := .ident "a"
+private abbrev b : Expr := .ident "b"
+private abbrev c : Expr := .ident "c"
+private abbrev lam : Expr := .lambda [.req "x"] (.bin .add (.ident "x") (.ident "y"))
+
+/-- `(a - (b - c)) * -c! ^ b` -/
+private abbrev t1 : Expr :=
+  .bin .mul (.bin .sub a (.bin .sub b c)) (.bin .pow (.un .negate (.fact c)) b)
+example : NoInvert t1 := by decide
+example : prattParse (items t1) = some t1 := printed_operators_reparse t1 (by decide)
+
+/-- branch 1: `it's` ↦ `"it's"`, read back in front of ` + x` -/
+example : '"' ∉ "it's".toList := by decide
+example : stringToSource "it's" = "\"it's\"" := by decide
+example : readString "\"it's\" + x".toList = some ("it's".toList, " + x".toList) := by decide
+
+/-- branch 2: `say "hi"` ↦ `'say "hi"'` -/
+example : '"' ∈ "say \"hi\"".toList ∧ '\'' ∉ "say \"hi\"".toList := by decide
+example : stringToSource "say \"hi\"" = "'say \"hi\"'" := by decide
+
+/-- branch 3: `it's "x"` ↦ `("it's " + '"' + "x" + '"')` -/
+example : '"' ∈ "it's \"x\"".toList ∧ '\'' ∈ "it's \"x\"".toList := by decide
+example : stringToSource "it's \"x\"" = "(\"it's \" + '\"' + \"x\" + '\"')" := by decide
+example : quotedPieces "it's \"x\"".toList =
+    [('"', "it's ".toList), ('\'', ['"']), ('"', ['x']), ('\'', ['"'])] := by decide
+
+/-- the escaped form the old printer produced is cut at the first quote: `"a\"b"` reads as `a\` -/
+example : readString "\"a\\\"b\"".toList = some ("a\\".toList, "b\"".toList) := by decide
+
+/-- record keys: bare, quoted, computed -/
+example : isValidIdentifier "rate_2" = true := by decide
+example : isValidIdentifier "two words" = false ∧
+    ¬ ('"' ∈ "two words".toList ∧ '\'' ∈ "two words".toList) := by decide
+example : formatRecordKey "two words" = "\"two words\"" := by decide
+example : isValidIdentifier "if" = false := by decide
+example : isValidIdentifier "a'\"" = false ∧ '"' ∈ "a'\"".toList ∧ '\'' ∈ "a'\"".toList := by decide
+example : formatRecordKey "a'\"" = "[(\"a'\" + '\"')]" := by decide
+
+/-- statement start -/
+example : "-x + 1".toList.head? = some '-' := by decide
+example : protectStatementStart "-x + 1" = "(-x + 1)" := by decide
+example : "x - 1".toList.head? ≠ some '-' := by decide
+
+/-- open-ended: `a + (x => x + y)` ends with a lambda; as the left operand of `*` or under a
+    call it must be parenthesised -/
+example : endsOpen (.bin .add a lam) = true := by decide
+example : EndsOpen (.bin .add a lam) := .binRight _ _ (.lambda _ _)
+example : needsParens (.un .negate lam) .postfix_ = true := by decide
+
+/-- lambda body `a && b via c`-like: `(a && b) via c` has `via` on top; `(a via b) || c`
+    reaches it along the left spine; `a + (b via c)` does not -/
+example : ChainExposed (.bin .or (.bin .via a b) c) := .left _ (by decide +kernel) (.via _ _)
+example : lambdaBodyNeedsParens (.bin .or (.bin .via a b) c) = true := by decide +kernel
+example : lambdaBodyNeedsParens (.bin .add a (.bin .via b c)) = false := by decide +kernel
+
+/-- numbers: +∞, 3.0, 0.5 (bit patterns) -/
+example : F64.inf.isInf = true ∧ F64.inf.neg = false := by decide +kernel
+example : (⟨0x4008000000000000⟩ : F64).isIntegral = true ∧
+    F64.flt (⟨0x4008000000000000⟩ : F64).abs f64_1e15 = true ∧
+    (⟨0x4008000000000000⟩ : F64).neg = false := by decide +kernel
+example : ¬ ((⟨0x3FE0000000000000⟩ : F64).isIntegral = true ∧
+    F64.flt (⟨0x3FE0000000000000⟩ : F64).abs f64_1e15 = true) := by decide +kernel
+end examples
 
 end Blots.C07
